@@ -1879,6 +1879,12 @@ static void get_user_data (interactive_t* ip, io_event_t* evt) {
           text_space = (MAX_TEXT - ip->text_end - 1) / 3;
           if (text_space < MAX_TEXT / 16)
             {
+              /* The buffer is full of commands that have not been executed yet (one is
+               * consumed per backend cycle): leave the new data in the socket until there
+               * is room, instead of throwing the pending commands away.
+               */
+              if (!(evt && evt->buffer && evt->bytes_transferred > 0) && cmd_in_buf (ip))
+                return;
               /* We've got almost 2k of data without a newline.
                * Discard buffer to prevent DoS from extremely long lines.
                */
